@@ -87,10 +87,10 @@ ShapeOK(src, k, s, e, a1) ==
        [] k = Image -> n >= 3 /\ B(1) = BANG /\ B(2) = LBR /\ last \in {RBR, RPAREN}
        [] k \in {Autolink, HtmlTag} -> n >= 2 /\ B(1) = LT /\ last = GT
        [] k = CharRef -> n >= 3 /\ B(1) = AMP /\ last = SEMI
-       [] k = Hard -> \/ n = 1 /\ B(1) = BSL
-                      \/ n \in {2, 3} /\ B(1) = BSL /\ (\A i \in 2..n : B(i) \in {10, 13})
-                      \/ /\ n >= 3 /\ B(1) = 32 /\ B(2) = 32 /\ last \in {10, 13}
-                         /\ \A i \in 1..n : B(i) \in {32, 10, 13}
+       \* a backslash, or two or more spaces, WITH the line ending (exactly one: LF, CR or CRLF)
+       [] k = Hard -> LET eol == IF n >= 2 /\ src[e-1] = 13 /\ last = 10 THEN 2 ELSE IF n >= 1 /\ last \in {10, 13} THEN 1 ELSE 0
+                          m == n - eol
+                      IN eol > 0 /\ ((m = 1 /\ B(1) = BSL) \/ (m >= 2 /\ \A i \in 1..m : B(i) = 32))
        [] k = Marker -> \/ n = 1 /\ B(1) \in {DASH, 43, STAR}
                         \/ n >= 2 /\ n <= 10 /\ last \in {46, 41} /\ \A i \in 1..(n-1) : B(i) \in 48..57
        [] k = Atx -> n >= a1 /\ (\A i \in 1..a1 : B(i) = 35) /\ (n = a1 \/ B(a1+1) # 35)
